@@ -1305,38 +1305,41 @@ class WorkerGateway(BaseGateway):
         item: tuple[Channel, tuple[str, str | None, str | None, dict[str, object]]],
     ) -> None:
         try:
-            channel, (source, file_name, call_name, kwargs) = item
-            loc: dict[str, Any] = {"channel": channel, "__name__": "__channelexec__"}
-            self._trace(f"execution starts[{channel.id}]: {repr(source)[:50]}")
-            channel._executing = True
             try:
-                co = compile(source + "\n", file_name or "<remote exec>", "exec")
-                exec(co, loc)
-                if call_name:
-                    self._trace("calling %s(**%60r)" % (call_name, kwargs))
-                    function = loc[call_name]
-                    function(channel, **kwargs)
-            finally:
-                channel._executing = False
-                self._trace("execution finished")
-        except KeyboardInterrupt:
-            channel.close(INTERRUPT_TEXT)
-            raise
-        except EOFError:
-            self._trace("ignoring EOFError because receiving finished")
+                channel, (source, file_name, call_name, kwargs) = item
+                loc: dict[str, Any] = {"channel": channel, "__name__": "__channelexec__"}
+                self._trace(f"execution starts[{channel.id}]: {repr(source)[:50]}")
+                channel._executing = True
+                try:
+                    co = compile(source + "\n", file_name or "<remote exec>", "exec")
+                    exec(co, loc)
+                    if call_name:
+                        self._trace("calling %s(**%60r)" % (call_name, kwargs))
+                        function = loc[call_name]
+                        function(channel, **kwargs)
+                finally:
+                    channel._executing = False
+                    self._trace("execution finished")
+            except KeyboardInterrupt:
+                channel.close(INTERRUPT_TEXT)
+                raise
+            except EOFError:
+                self._trace("ignoring EOFError because receiving finished")
 
-        except BaseException as exc:
-            if not channel.gateway._channelfactory.finished:
-                self._trace(f"got exception: {exc!r}")
-                errortext = self._geterrortext(exc)
-                channel.close(errortext)
-                return
-        channel.close()
-        if self._executetask_complete is not None:
-            # Indicate that this task has finished executing, meaning
-            # that there is no possibility of it triggering a deadlock
-            # for the next spawn call.
-            self._executetask_complete.set()
+            except BaseException as exc:
+                if not channel.gateway._channelfactory.finished:
+                    self._trace(f"got exception: {exc!r}")
+                    errortext = self._geterrortext(exc)
+                    channel.close(errortext)
+                    return
+            channel.close()
+        finally:
+            if getattr(self, "_executetask_complete", None) is not None:
+                # Indicate that this task has finished executing, meaning
+                # that there is no possibility of it triggering a deadlock
+                # for the next spawn call.  This must happen however the
+                # task ended (normally, with an error, interrupted).
+                self._executetask_complete.set()
 
 
 #
